@@ -74,7 +74,7 @@ class {cls}(dawgie.{base}):
     def state_vectors(self):
         return [self._sv]
     def where(self):
-        return dawgie.Distribution.cluster
+        return dawgie.Distribution.{where}
 '''
 
 BOT_SRC = '''
@@ -120,7 +120,7 @@ def write_engine(root, pkg, algs):
 
             src.append(ALG_SRC.format(
                 cls=cls_name(a), base=base, name=a['name'], prior=prior, values=a['values'],
-                inputs=spec(a['inputs']), feedback=spec(a.get('feedback', []))))
+                inputs=spec(a['inputs']), feedback=spec(a.get('feedback', [])), where=a.get('where', 'cluster')))
         for kind in ('task', 'analysis', 'regress'):
             ms = [a for a in members if a['kind'] == kind]
             if ms:
@@ -281,8 +281,11 @@ class Env:
         orig = S.next_job_batch.__wrapped__ if hasattr(S.next_job_batch, '__wrapped__') else S.next_job_batch
 
         def recording_batch():
+            # released = what this call moved todo -> doing (after a database fault `do` still holds
+            # targets released by an earlier call)
+            before = {tag: set(n.get('doing')) for tag, n in self.nodes.items()}
             jobs = orig()
-            self.released_log.append([(j.tag, sorted(j.get('do'))) for j in jobs])
+            self.released_log.append([(j.tag, sorted(set(j.get('doing')) - before[j.tag])) for j in jobs])
             return jobs
 
         recording_batch.__wrapped__ = orig
